@@ -1,7 +1,7 @@
 (* C04 — dag_to_cpdag returns the essential graph of the DAG's Markov equivalence class. *)
 From Coq Require Import List Arith.
 From PG Require Import Base.ListSet Graph.MGraph C04.Dag C04.Model C04.Spec C04.Proofs C04.Structure C04.Classify
-  C04.EssRefl C04.Bounded_4 C04.Cover C04.Invariant C04.Bounded_5 C04.VStruct C04.VStructCor C04.Chickering C04.Chickering2 C04.DerComplete.
+  C04.EssRefl C04.Bounded_4 C04.Cover C04.Invariant C04.Bounded_5 C04.VStruct C04.VStructCor C04.Chickering C04.Chickering2 C04.DerComplete C04.Reversible C04.Essential C04.ReversibleDer.
 Import ListNotations.
 
 (* unbounded: the labelling loop never runs out of fuel, for any graph and any node order *)
@@ -23,6 +23,34 @@ Theorem cpdag_vstructs_compelled : forall d ord vs c r, is_dag d -> topo d ord -
   forall a y b, Vstr d a y b -> In (a, y) c.
 Proof. exact cpdag_vstructs_compelled_thm. Qed.
 Print Assumptions cpdag_vstructs_compelled.
+
+(* ===== CHICKERING'S THEOREM FOR THE MODEL, ALL SIZES: for every DAG and every topological order, an edge of the result is
+   directed iff it lies in every Markov-equivalent DAG (and undirected otherwise, by cpdag_structure) ===== *)
+Theorem cpdag_essential : forall d ord, is_dag d -> topo d ord ->
+  exists c r, cpdag_model d ord = Some (V d, c, r) /\ forall a b, In (a, b) c <-> essential d a b.
+Proof. exact cpdag_essential_thm. Qed.
+Print Assumptions cpdag_essential.
+
+(* ALL SIZES: an undirected edge of the result is reversed in some Markov-equivalent DAG *)
+Theorem cpdag_reversible_not_essential : forall d ord vs c r, is_dag d -> topo d ord -> cpdag_model d ord = Some (vs, c, r) ->
+  forall a b, In (a, b) r -> ~ essential d a b.
+Proof. exact cpdag_reversible_not_essential_thm. Qed.
+Print Assumptions cpdag_reversible_not_essential.
+
+(* ALL SIZES: two DAGs receive equal CPDAGs (nodes, skeleton, directed edges) iff they are Markov equivalent —
+   whatever topological orders are used *)
+Theorem cpdag_classifies : forall d1 d2 o1 o2, is_dag d1 -> is_dag d2 -> topo d1 o1 -> topo d2 o2 ->
+  exists c1 r1 c2 r2, cpdag_model d1 o1 = Some (V d1, c1, r1) /\ cpdag_model d2 o2 = Some (V d2, c2, r2) /\
+    (meq d1 d2 <->
+     (set_eq (V d1) (V d2) /\ (forall e, In e c1 <-> In e c2) /\
+      (forall a b, Padj (mkp (V d1) c1 r1) a b <-> Padj (mkp (V d2) c2 r2) a b))).
+Proof. exact cpdag_classifies_thm. Qed.
+Print Assumptions cpdag_classifies.
+
+(* ALL SIZES, model-free: essential = derivable from the v-structures by the four orientation rules *)
+Theorem essential_iff_derivable : forall d, is_dag d -> forall a b, essential d a b <-> Der d a b.
+Proof. exact essential_iff_Der. Qed.
+Print Assumptions essential_iff_derivable.
 
 (* UNBOUNDED, one half of Chickering's theorem: every DIRECTED edge of the result lies in every Markov-equivalent DAG
    (for every DAG and every topological order) *)
